@@ -93,13 +93,14 @@ type Outcome struct {
 }
 
 type Program struct {
-	Pkgs      []*packages.Package
-	Fset      *token.FileSet
-	Contracts *Contracts
-	Funcs     map[string]*FuncInfo // key -> info (per package path + key)
-	funcByObj map[*types.Func]*FuncInfo
-	TypeIDs   TypeReg
-	strIDs    map[string]int
+	Pkgs                 []*packages.Package
+	Fset                 *token.FileSet
+	Contracts            *Contracts
+	Funcs                map[string]*FuncInfo // key -> info (per package path + key)
+	funcByObj            map[*types.Func]*FuncInfo
+	perIterationLoopVars bool // go.mod says go >= 1.22
+	TypeIDs              TypeReg
+	strIDs               map[string]int
 }
 
 type FuncInfo struct {
